@@ -1,14 +1,19 @@
 LIBS = ["libvpsc", "libavoid"]
 HARNESS = "harness/c02.cpp"
 DRIVER_MODE = "c02"
-LEAN_MODULES = ["AdaptaVerif.Props.C02"]
+LEAN_MODULES = ["AdaptaVerif.Props.C02", "AdaptaVerif.Props.C02Model"]
 LEVEL = "translation_validation"
 LEVEL_TEXT = ("Per run: the positions returned by vpsc::IncSolver::solve, vpsc::Solver::solve, Avoid::IncSolver::solve, "
               "re-solves after moved desired positions and permuted-order runs are compared (1e-5 * problem scale) with the exact "
               "rational optimum computed in Lean and certified by a KKT certificate checker. Universal Lean 4 theorems (all n, "
               "all constraint lists, all rational data): the checker is sound (accepted certificate => optimum, and every optimum "
               "equals it), KKT sufficiency (exact and epsilon-relaxed), uniqueness, order independence, translation equivariance, "
-              "optimality of the block position formula.")
+              "optimality of the block position formula. Model side (Props/C02Model.lean, about the Rat model of IncSolver "
+              "that C01 ties to the code): in every state satisfying C01's block invariant with blocks at their stationary "
+              "position, the tree multipliers satisfy stationarity, and a quiescent state (all constraints hold, no active "
+              "inequality with multiplier < -eps) satisfies KKT/KKTeps, hence is the optimum resp. within the eps bound "
+              "(quiescent_is_optimum, quiescent_is_eps_optimum); 'solve returns => optimum' is false and the premature-stop "
+              "witness is re-evaluated at every build.")
 LEVEL_NOTE = ("The theorems are about the mathematical QP (Spec/Qp.lean) and the checker, not about the C++: optimality of the "
               "floating-point solver is decided only on the generated cases (sampled + exhaustive n<=3, thorough n=4 class), not "
               "for all inputs. The active-set oracle search itself is unverified; its answer is used only after checkKkt accepted "
